@@ -288,7 +288,15 @@ namespace
                     auto value = res->data_try<d_boolean, bool>();
                     if (value.has_value())
                     {
-                        return result::ok;
+                        if (*value)
+                        {
+                            return result::ok;
+                        }
+                        if (m_count > 30000 && runtime.context_active().can_suspend())
+                        {
+                            runtime.__logmsg(logmessage::runtime::WaitUntilMaxLoopReached(frame.diag_info_from_position()));
+                            return result::ok;
+                        }
                     }
                     else
                     {
